@@ -3,6 +3,7 @@ package vc
 import (
 	"fmt"
 	"io"
+	"os"
 	"regexp"
 	"strings"
 	"sync"
@@ -87,7 +88,7 @@ func (r *Run) discharge(fr *FuncResult) []*OblResult {
 	}
 	// 1. batch all proof obligations
 	batchOK := false
-	if len(proofs) > 1 {
+	if len(proofs) > 1 && os.Getenv("GOVC_NOBATCH") == "" {
 		bt := 3 * time.Second
 		if r.Timeout < bt {
 			bt = r.Timeout
@@ -113,6 +114,14 @@ func (r *Run) discharge(fr *FuncResult) []*OblResult {
 			// a cover is expected to be satisfiable; only a refutation (unsat) is a vacuity alarm
 			v = runSolver(Solvers[0], destring(o.Query(false)), r.Dir, fileTag(o.Name), 2*time.Second, r.Seed)
 			ok = v.Status != "unsat"
+			if ok && os.Getenv("GOVC_NOFULLCOVER") == "" {
+				// the same path under the whole background of the function (every fact any obligation
+				// pulls in): a background fact that kills a path would make the batch verdict vacuous
+				v2 := runSolver(Solvers[0], destring(FullCoverQuery(o, fr.Obligations)), r.Dir, fileTag(o.Name)+".full", 2*time.Second, r.Seed)
+				if v2.Status == "unsat" {
+					v, ok = v2, false
+				}
+			}
 		} else {
 			v = Decide(o.Query(true), r.Dir, fileTag(o.Name), r.Timeout, r.Seed)
 			ok = v.Status == "unsat"
